@@ -164,6 +164,27 @@ func (d *deepView) structField(x ssa.Value, fr *frame, idx int, cs *caseSel, dep
 		}
 	case *ssa.MakeInterface:
 		return d.structField(y.X, r.fr, idx, cs, depth+1)
+	case *ssa.FieldAddr:
+		// a struct nested in another one: the inner struct is what was stored
+		// as a whole into the outer field, provided nothing in the view writes
+		// a single field of the inner struct in place
+		outer := d.resolve(y.X, r.fr)
+		for _, di := range d.order {
+			st, ok := di.i.(*ssa.Store)
+			if !ok {
+				continue
+			}
+			in, ok := st.Addr.(*ssa.FieldAddr)
+			if !ok {
+				continue
+			}
+			if mid, ok := in.X.(*ssa.FieldAddr); ok && mid.Field == y.Field && d.resolve(mid.X, di.fr).same(outer) {
+				return dval{}, false
+			}
+		}
+		if inner, ok := d.structField(y.X, r.fr, y.Field, cs, depth+1); ok {
+			return d.structField(inner.v, inner.fr, idx, cs, depth+1)
+		}
 	}
 	return dval{}, false
 }
@@ -416,6 +437,14 @@ func (d *deepView) affine(v ssa.Value, fr *frame, cs *caseSel, depth int) Affine
 					return d.affine(fv.v, fv.fr, cs, depth+1)
 				}
 			}
+			// a package-level variable nothing but its initialiser assigns
+			if g, isG := x.X.(*ssa.Global); isG && affineGlobal != nil {
+				if iv := affineGlobal(g); iv != nil {
+					if a := affineOf(iv, 0); a.isConst() {
+						return a
+					}
+				}
+			}
 		}
 	case *ssa.Field:
 		if fv, ok := d.structField(x.X, r.fr, x.Field, cs, 0); ok {
@@ -476,6 +505,50 @@ func (d *deepView) rangeLiteral(v ssa.Value, fr *frame) (ssa.Value, int64, bool)
 		if ia, ok := v.(*ssa.IndexAddr); ok {
 			if _, isK := ir.ConstInt(ia.Index); !isK {
 				if a, _, ok := d.literalArray(ia.X, fr); ok {
+					// the counted form: i = phi(0, i+1), every element visited while
+					// i < len(literal) (other conjuncts of the loop condition only end
+					// the loop early, on a path that is not the complete one)
+					if ph, ok := ia.Index.(*ssa.Phi); ok && len(ph.Edges) == 2 {
+						alen := a.Type().Underlying().(*types.Pointer).Elem().Underlying().(*types.Array).Len()
+						c0, ok0 := ir.ConstInt(ph.Edges[0])
+						inc, isInc := ph.Edges[1].(*ssa.BinOp)
+						if ok0 && c0 == 0 && isInc && inc.Op == token.ADD && inc.X == ssa.Value(ph) {
+							if k, isK := ir.ConstInt(inc.Y); isK && k == 1 {
+								bounded, other := false, false
+								for _, r := range *ph.Referrers() {
+									cmp, isCmp := r.(*ssa.BinOp)
+									if !isCmp || cmp == inc {
+										continue
+									}
+									switch cmp.Op {
+									case token.LSS:
+										if cmp.X != ssa.Value(ph) {
+											other = true
+											continue
+										}
+										if n, isK := ir.ConstInt(cmp.Y); isK && n == alen {
+											bounded = true
+										} else if lc, isC := cmp.Y.(*ssa.Call); isC && ir.CallID(lc) == "builtin.len" {
+											if la, _, okA := d.literalArray(lc.Call.Args[0], fr); okA && la == a {
+												bounded = true
+											} else {
+												other = true
+											}
+										} else {
+											other = true
+										}
+									case token.EQL, token.NEQ, token.LEQ, token.GTR, token.GEQ, token.SUB, token.MUL:
+										other = true
+									}
+								}
+								if bounded && !other {
+									idxV = ia.Index
+									n = alen
+									return
+								}
+							}
+						}
+					}
 					// the canonical range index: phi(-1, phi+1) + 1
 					if bo, ok := ia.Index.(*ssa.BinOp); ok && bo.Op == token.ADD {
 						if ph, ok := bo.X.(*ssa.Phi); ok && len(ph.Edges) >= 2 {
